@@ -18,6 +18,7 @@ import (
 	"fmt"
 	"os"
 	"path/filepath"
+	"runtime"
 	"runtime/debug"
 	"sort"
 	"strings"
@@ -43,9 +44,9 @@ type DiskFault struct {
 }
 
 type DiskSpec struct {
-	Form   string            `json:"form"`            // "dir" | "archive"
-	Files  map[string]string `json:"files"`           // intact chart directory (path -> content)
-	Alt    map[string]string `json:"alt,omitempty"`   // an older version of some files (the other half of a torn write)
+	Form   string            `json:"form"`             // "dir" | "archive"
+	Files  map[string]string `json:"files"`            // intact chart directory (path -> content)
+	Alt    map[string]string `json:"alt,omitempty"`    // an older version of some files (the other half of a torn write)
 	Plugin string            `json:"plugin,omitempty"` // intact plugin.yaml ("" = no plugin directory)
 	Home   map[string]string `json:"home,omitempty"`   // files of the helm home: repositories.yaml, index.yaml (cached repository index)
 	Faults []DiskFault       `json:"faults"`
@@ -141,13 +142,32 @@ func guarded(limit time.Duration, fn func() error) (err error, panicked string, 
 		}()
 		o.err = fn()
 	}()
-	select {
-	case o := <-ch:
-		return o.err, o.pan, false
-	case <-time.After(limit):
-		return nil, "", true
+	// besides the time limit: a reader that never returns AND keeps allocating (a loop that collects one message per
+	// round, say) must not take the machine down with it; past 1 GiB of heap it counts as hung at once
+	deadline := time.After(limit)
+	tick := time.NewTicker(100 * time.Millisecond)
+	defer tick.Stop()
+	for {
+		select {
+		case o := <-ch:
+			return o.err, o.pan, false
+		case <-deadline:
+			AbandonProcess = true
+			return nil, "", true
+		case <-tick.C:
+			var ms runtime.MemStats
+			runtime.ReadMemStats(&ms)
+			if ms.HeapAlloc > 1<<30 {
+				AbandonProcess = true
+				return nil, "", true
+			}
+		}
 	}
 }
+
+// AbandonProcess is set when a goroutine that will never return was left behind: the engine stops using this process
+// after the current run.
+var AbandonProcess bool
 
 // ExecuteC20d writes the chart to the scratch disk, damages it, and drives every reader over it.
 func ExecuteC20d(t *testing.T, plan *Plan) *RunResult {
@@ -297,7 +317,7 @@ func ExecuteC20d(t *testing.T, plan *Plan) *RunResult {
 			res.Violations = append(res.Violations, Violation{"C20", "no-panic", what, cause + ":" + panicSite(pan), fmt.Sprintf("%s panicked on a chart damaged on disk (%s): %s", what, cause, trunc(pan, 600)), 0})
 			res.Probes["c20d-panic"]++
 		case hung:
-			res.Violations = append(res.Violations, Violation{"C20", "no-hang", what, cause, fmt.Sprintf("%s did not return within %v on a chart damaged on disk (%s)", what, limit, cause), 0})
+			res.Violations = append(res.Violations, Violation{"C20", "no-hang", what, cause, fmt.Sprintf("%s did not return within %v (or kept allocating past 1 GiB) on a chart damaged on disk (%s)", what, limit, cause), 0})
 			stopped = true // the goroutine is still running: nothing more can be judged in this run
 		case err != nil:
 			res.Probes["c20d-error:"+what]++
@@ -612,6 +632,10 @@ func genC20d(g *Gen, seed, index uint64) *Plan {
 	if g.Chance(0.7) {
 		f["templates/hook.yaml"] = "apiVersion: batch/v1\nkind: Job\nmetadata:\n  name: hook\n  annotations:\n    \"helm.sh/hook\": pre-install,post-upgrade\n    \"helm.sh/hook-weight\": \"-5\"\n    \"helm.sh/hook-delete-policy\": hook-succeeded,before-hook-creation\nspec:\n  template:\n    spec:\n      restartPolicy: Never\n      containers:\n      - name: c\n        image: busybox\n"
 	}
+	if g.Chance(0.5) {
+		// a manifest written in JSON style (legal YAML): cut short on disk it ends in the middle of an object
+		f["templates/json.yaml"] = "{\"apiVersion\": \"v1\", \"kind\": \"ConfigMap\", \"metadata\": {\"name\": \"json-cm\", \"labels\": {\"style\": \"json\"}},\n \"data\": {\"a\": {{ .Values.a | toJson }}, \"b\": \"two\", \"c\": \"three\"}}\n"
+	}
 	if g.Chance(0.6) {
 		f["templates/NOTES.txt"] = "Installed {{ .Release.Name }} with a={{ .Values.a }}\n"
 	}
@@ -703,6 +727,9 @@ func genC20d(g *Gen, seed, index uint64) *Plan {
 				return "values.schema.json"
 			}
 		case 4:
+			if _, ok := f["templates/json.yaml"]; ok && g.Chance(0.4) {
+				return "templates/json.yaml"
+			}
 			return g.Pick("templates/cm.yaml", "templates/_helpers.tpl", "templates/cm.yaml")
 		case 5:
 			return g.Pick("charts/sub/Chart.yaml", "charts/sub/values.yaml")
